@@ -50,6 +50,70 @@ class Other:
     __module__ = MODNAME
 
 
+class _Boom(BaseException):
+    """not an Exception: only `except BaseException` catches it"""
+
+
+class _AnyEq:
+    """equal to everything (like unittest.mock.ANY)"""
+    __hash__ = None
+
+    def __eq__(self, other):
+        return True
+
+    def __ne__(self, other):
+        return False
+
+
+class _NeverEq:
+    """equal to nothing, not even itself"""
+    __hash__ = None
+
+    def __eq__(self, other):
+        return False
+
+
+def _raising_eq(exc):
+    class _RaisingEq:
+        __hash__ = None
+
+        def __eq__(self, other):
+            raise exc("== on a closed-over object")
+    return _RaisingEq
+
+
+class _EqMeta(type):
+    """a CLASS that compares equal to every other class"""
+
+    def __eq__(cls, other):
+        return True
+
+    def __hash__(cls):
+        return 0
+
+
+def other_object(kind):
+    """a fresh object of the requested kind for an 'other' cell; the build must leave the cell holding THIS object"""
+    import unittest.mock
+    if kind == "anyeq":
+        return _AnyEq()
+    if kind == "mock_any":
+        return unittest.mock.ANY
+    if kind == "nevereq":
+        return _NeverEq()
+    if kind == "eq_typeerror":
+        return _raising_eq(TypeError)()
+    if kind == "eq_valueerror":
+        return _raising_eq(ValueError)()
+    if kind == "eq_baseexc":
+        return _raising_eq(_Boom)()
+    if kind == "eqclass":
+        return _EqMeta("EqClass", (), {"__module__": MODNAME})
+    if kind == "value":
+        return ("a", 1)
+    return Other
+
+
 class _Descr:
     """a descriptor attrs knows nothing about, hiding a function"""
 
@@ -316,6 +380,7 @@ def build(hs, decorate=True):
     name = hs.get("name", "C")
     cells = {cid: types.CellType() for cid, _ in hs["cells"]}
     b.cells = cells
+    b.cell_objs = {}
     items = hs["items"]
     own_hook = False
     if hs.get("natural"):
@@ -414,7 +479,8 @@ def build(hs, decorate=True):
         if content == "old":
             cells[cid].cell_contents = old
         elif content == "other":
-            cells[cid].cell_contents = Other
+            b.cell_objs[cid] = other_object((hs.get("cell_objs") or {}).get(str(cid), "class"))
+            cells[cid].cell_contents = b.cell_objs[cid]
     b.old = old
     # ABCMeta's own bookkeeping is recomputed by the metaclass for the new class: not part of the body
     b.old_dict = {k: v for k, v in old.__dict__.items() if k not in ("__abstractmethods__", "_abc_impl")}
@@ -648,7 +714,9 @@ def lean_case(hs, b=None):
 
 
 # ------------------------------------------------------------------------------------------ observation
-def _cellval(cell, b):
+def _cellval(cell, b, cid=None):
+    """by IDENTITY only (closed-over objects may have any __eq__): the new class, the old class, the very object
+    the harness put there ("other"); anything else reads as "empty" (the original content is gone)"""
     try:
         v = cell.cell_contents
     except ValueError:
@@ -657,6 +725,8 @@ def _cellval(cell, b):
         return "new"
     if v is b.old:
         return "old"
+    if cid in b.cell_objs and v is not b.cell_objs[cid]:
+        return "empty"
     return "other"
 
 
@@ -795,7 +865,7 @@ def observe(hs):
                 ld.append(nm + ":" + common.exc_kind(e))
     obs["lookupDiff"] = ld
     del LOG[:]
-    obs["cells"] = [[cid, _cellval(b.cells[cid], b)] for cid, _ in hs["cells"]]
+    obs["cells"] = [[cid, _cellval(b.cells[cid], b, cid)] for cid, _ in hs["cells"]]
     # calls (now), and what the same functions saw when the inherited hook invoked them (then)
     obs["calls"] = [[lab, _classify(ev, new, old)] for lab, ev in _raw_calls(new, b)]
     hook_calls, view = [], []
